@@ -679,7 +679,8 @@ impl Archetype {
 
                 Column {
                     component_layout: info.layout(),
-                    data: NonNull::dangling(),
+                    // Dangling, but aligned for the component.
+                    data: unsafe { NonNull::new_unchecked(info.layout().align() as *mut u8) },
                     drop: info.drop(),
                 }
             })
